@@ -90,3 +90,50 @@ def expect(res, key, v, specs, what, exact=('return', 'raise', 'yield', 'yield-f
             res.find(key, v.loc(e), f'{v.f.qualname}: {what}; unexpected `{k} {t[:110]}`' + (f' when {sorted(g)}' if g else ''))
             return False
     return True
+
+
+def as_loop(v, text):
+    """an iterable argument in loop form, whether it is spelled as a generator / list comprehension inside the expression or
+    as a local list filled by a loop before:  -> (element text, loops, guards) or None.
+    `(_2 for _1, _2 in X)`  and  `#1` with `call #1.append($1[1]) in [for X]`  both give  ('$1[1]', ('for X',), frozenset())"""
+    import ast
+    from .src import norm
+    m = re.fullmatch(r'#(\d+)', text)
+    if m:
+        adds = [r for r in v.rows if r[0] == 'call' and re.match(rf'#{m.group(1)}\.(append|add)\(', r[1])]
+        others = [r for r in v.rows if r[0] in ('store', 'aug', 'del', 'call') and re.search(rf'#{m.group(1)}(?!\d)', r[1]) and r not in adds
+                  and not r[1].startswith(('unique_list(', 'list(', 'sorted(', 'tuple('))]
+        news = [e for e in v.E if e.kind == 'new' and e.text.startswith(f'#{m.group(1)}<')]
+        if len(adds) != 1 or others or not news or not all(e.text in (f'#{m.group(1)}<[]>', f'#{m.group(1)}<set()>') for e in news):
+            return None
+        call = adds[0][1]
+        return call[call.index('(') + 1:-1], tuple(adds[0][3]), frozenset(adds[0][2])
+    try:
+        node = ast.parse(re.sub(r'\$(\d+)', r'_loop_\1', re.sub(r'#(\d+)', r'_cell_\1', text)), mode='eval').body
+    except SyntaxError:
+        return None
+    if isinstance(node, ast.Call) and isinstance(node.func, ast.Name) and node.func.id == 'list' and len(node.args) == 1:
+        node = node.args[0]
+    if not isinstance(node, (ast.GeneratorExp, ast.ListComp)):
+        return None
+    env, loops, guards = {}, [], []
+
+    class S(ast.NodeTransformer):
+        def visit_Name(self, n):
+            return env.get(n.id, n)
+
+    def back(t):
+        return re.sub(r'_loop_(\d+)', r'$\1', re.sub(r'_cell_(\d+)', r'#\1', t))
+    for i, g in enumerate(node.generators, 1):
+        loops.append('for ' + back(norm(S().visit(g.iter))))
+        lv = ast.Name(id=f'_loop_{i}', ctx=ast.Load())
+        if isinstance(g.target, ast.Name):
+            env[g.target.id] = lv
+        elif isinstance(g.target, (ast.Tuple, ast.List)) and all(isinstance(x, ast.Name) for x in g.target.elts):
+            for j, x in enumerate(g.target.elts):
+                env[x.id] = ast.Subscript(value=lv, slice=ast.Constant(value=j), ctx=ast.Load())
+        else:
+            return None
+        for c in g.ifs:
+            guards.append(back(norm(S().visit(c))))
+    return back(norm(S().visit(node.elt))), tuple(loops), frozenset(guards)
